@@ -1121,6 +1121,14 @@ pub fn build_pool(seed: u64, repo: &str, sz: &PoolSizes, focus: Option<&PoolFocu
                     add_expr(&mut pool, &mut r, e, format!("0.{}*@", lit), "boundary_ladder", 1);
                 }
             }
+            // beyond 256 characters: the three recursion-depth shapes at 2^8+1 .. 2^10+1 (limits such as "256 levels"
+            // sit just past what a 256-character input can reach); callers' threads have 64 MB stacks
+            for n in [257usize, 258, 300, 511, 512, 513, 1023, 1025] {
+                add_expr(&mut pool, &mut r, e, format!("{}@{}", "(".repeat(n), ")".repeat(n)), "boundary_ladder", 1);
+                add_expr(&mut pool, &mut r, e, format!("{}@", "-".repeat(n)), "boundary_ladder", 1);
+                let t: Vec<&str> = (0..n).map(|i| if i % 5 == 0 { "@" } else { "1" }).collect();
+                add_expr(&mut pool, &mut r, e, t.join("+"), "boundary_ladder", 2);
+            }
             // dense runs near the top
             for n in 118..=127usize {
                 add_expr(&mut pool, &mut r, e, format!("{}@+1{}", "(".repeat(n), ")".repeat(n)), "boundary_ladder", 1);
